@@ -1,5 +1,6 @@
 import sys
 pid=sys.argv[1]
+focus=sys.argv[2] if len(sys.argv) > 2 else None
 prop=open('/tmp/prop_%s.txt'%pid).read()
 print(f"""You are helping test a verification framework by producing a *seeded defect* in a C project (squashfs-tools-ng, SquashFS packing/unpacking tools and library, autotools).
 
@@ -14,7 +15,7 @@ Task:
 2. Design ONE realistic source change (a plausible bug a maintainer could introduce: a wrong condition, a missing re-check, an off-by-one, a dropped flag, a reordered statement, two sites that each look fine alone ...) that makes the code violate the property above. It must:
    - still compile without new warnings being errors, and `make -j8 check` must still pass (all 89 tests) with the change applied;
    - need something specific to manifest (a particular interleaving, a fault or crash at a particular point, a multi-step sequence of operations, an unusual input or option combination, or two cooperating sites) - NOT something that ordinary use exposes at once;
-   - be small (ideally < 25 changed lines), touching only files under lib/, bin/ or include/.
+   - be small (ideally < 25 changed lines), touching only files under lib/, bin/ or include/.{(chr(10) + '   - ' + focus) if focus else ''}
 3. Write a demonstration (a small C program linked against the built library/objects, or a shell/python script driving the built tools) that FAILS (non-zero exit, with a message saying what went wrong) with your change applied and PASSES (exit 0) on the unchanged checkout. Verify both directions yourself (use `git stash` / `git stash pop` or `git diff > patch; git checkout .; ...; git apply patch`), rebuilding in between.
 4. Leave your results in /tmp/wt_{pid}/_seed/ :
    - patch.diff  (output of `git diff` for the source change only, applicable with `git apply` at the repository root)
